@@ -155,6 +155,10 @@ class _Partial:
             return NotImplemented
         if mode == 2:
             raise ValueError(name)
+        if mode == 3:
+            return True
+        if mode == 4:
+            return False
         ov = other.v if isinstance(other, _Partial) else other
         return fn(self.v, ov)
 
@@ -195,6 +199,37 @@ def h_partial(cmp_sel: int, va: int, vb: int, lt: int, le: int, gt: int, ge: int
     ok = _check(cmp_sel, a, b, a2, b2)
     # C01 side condition: the tracer evaluates only dunders the comparison itself evaluates
     ok = ok and set(log2) <= set(log1)
+    return reach(ok)
+
+
+_OPNAMES = ("lt", "le", "eq", "ne", "gt", "ge")
+_REFLECTED = {"lt": "gt", "le": "ge", "eq": "eq", "ne": "ne", "gt": "lt", "ge": "le"}
+
+
+def h_skew(cmp_sel: int, ma: int, mb: int, mc: int, va: int, vb: int) -> bool:
+    """
+    pre: 0 <= cmp_sel < 6 and 0 <= ma <= 4 and 0 <= mb <= 4 and 0 <= mc <= 4 and 0 <= va <= 1 and 0 <= vb <= 1
+    post: _
+    """
+    # Classes whose dunders are NOT consistent with each other: the operator the SUT evaluates on `a`
+    # (mode ma), its reflection on `b` (mode mb) and the complementary operator on `a` (mode mc: `==` for
+    # `!=`, `>=`-style for `<` ...) each behave independently (real / NotImplemented / raises / constant).
+    name = pick(_OPNAMES, cmp_sel)
+    comp = {"lt": "ge", "le": "gt", "eq": "ne", "ne": "eq", "gt": "le", "ge": "lt"}[name]
+    log1, log2 = [], []
+
+    def mk(log):
+        fa = {n: 1 for n in _OPNAMES}
+        fb = {n: 1 for n in _OPNAMES}
+        fa[name] = ma
+        fa[comp] = mc
+        fb[_REFLECTED[name]] = mb
+        return _Partial(va, fa, log), _Partial(vb, fb, log)
+
+    a, b = mk(log1)
+    a2, b2 = mk(log2)
+    ok = _check(cmp_sel, a, b, a2, b2)
+    ok = ok and set(log2) <= set(log1)  # the tracer evaluates no dunder the comparison itself does not evaluate
     return reach(ok)
 
 
@@ -431,7 +466,7 @@ META = {
                   "pynguin.utils.type_utils.string_distance/string_lt_distance/string_le_distance/given_exception_matches"],
     "bounds": {"E2": "ints in [-2**63, 2**63), all Float64, bool; type pairs int/float/bool x int/float/bool; ops LT LE EQ NE GT GE",
                "E1": "str/bytes len <= 3 (quick 2); containers <= 2 elements over [-2,2]; numeric constants by selector; "
-                     "6 dunders x {missing, NotImplemented, raises}; 6 exception classes, tuples of 2"},
+                     "6 dunders x {missing, NotImplemented, raises}; mutually inconsistent dunders (operator, reflection, complement x 5 behaviours); 6 exception classes, tuples of 2"},
     "outside": ["ints in [2**63, 2**1024) other than listed constants", "strings longer than 3", "containers > 2 elements",
                 "numpy and other third-party numeric types", "operands that are one-shot iterators (see C01)"],
     "assumptions": ["a comparison that raises in the SUT may raise the same way in the tracer",
@@ -450,6 +485,7 @@ def obligations(tier: str):
         Chx("str", h_str, timeout=T, split={"cmp_sel": list(range(6))}),
         Chx("bytes", h_bytes, timeout=T, split={"cmp_sel": list(range(6)), "na": [0, 1, 2]}),
         Chx("partial", h_partial, timeout=T, split={"cmp_sel": list(range(6)), "lt": [0, 1, 2]}),
+        Chx("skew", h_skew, timeout=T, split={"cmp_sel": list(range(6))}),
         Chx("in", h_in, timeout=T, split={"kind": list(range(9))}),
         Chx("in_str", h_in_str, timeout=T),
         Chx("is", h_is, timeout=T),
